@@ -40,7 +40,7 @@ def draw_case(draw, closed=()):
     ops = []
     if num and g.boolean(0.8):
         x = g.pick(num)
-        kind = g.pick(["neg_pow", "neglit_pow", "pow_neg_exp", "neg_compound", "nested_neg", "sub_chain", "neg_mul"])
+        kind = g.pick(["neg_pow", "neglit_pow", "pow_neg_exp", "neg_compound", "nested_neg", "sub_chain", "neg_mul", "pow_tower_left", "pow_tower_right", "div_chain", "neg_method", "sub_method"])
         X = ["col", x]
         e = {
             "neg_pow": ["call", "**", [["call", "neg", [X]], ["lit", 2]]],
@@ -50,8 +50,13 @@ def draw_case(draw, closed=()):
             "nested_neg": ["call", "neg", [["call", "neg", [X]]]],
             "sub_chain": ["call", "-", [X, ["call", "-", [X, ["lit", 1]]]]],
             "neg_mul": ["call", "*", [["call", "neg", [X]], ["call", "neg", [["lit", 2.5]]]]],
+            "pow_tower_left": ["call", "**", [["call", "**", [["call", "+", [["call", "abs", [X]], ["lit", 1.0]]], ["lit", 2]]], ["lit", 3]]],
+            "pow_tower_right": ["call", "**", [["call", "+", [["call", "abs", [X]], ["lit", 1.0]]], ["call", "**", [["lit", 2], ["lit", 2]]]]],
+            "div_chain": ["call", "/", [X, ["call", "/", [["lit", 4.0], ["lit", 2.0]]]]],
+            "neg_method": ["call", "abs", [["call", "neg", [X]]]],
+            "sub_method": ["call", "abs", [["call", "-", [X, ["lit", 1]]]]],
         }[kind]
-        ops.append(["x" if kind in ("pow_neg_exp", "neg_mul") else ("w" if kind != "neglit_pow" else "z"), ["call", "*", [e, ["lit", 1.0]]]])
+        ops.append(["x" if kind in ("pow_neg_exp", "neg_mul", "pow_tower_left", "div_chain") else ("w" if kind != "neglit_pow" else "z"), ["call", "*", [e, ["lit", 1.0]]]])
         feats.append(kind)
     if strs and g.boolean(0.8):
         s = g.pick(strs)
